@@ -111,8 +111,8 @@ Definition w_step_gen (fixed : bool) (nlen : N) (f : fs) (w : wstate) (a : api)
       else
         match vol f with
         | Some c =>
-            if fixed && tr && (pre_len nlen <=? clen c) && (good_len nlen c <? clen c)
-            then (w, [OTrunc (good_len nlen c)], false)
+            if fixed && (pre_len nlen <=? clen c) && (good_len nlen c <? clen c)
+            then (w, (if tr then [OTrunc (good_len nlen c)] else []) ++ [OClose], false)
             else (w, [], false)
         | None => (w, [], false)
         end
